@@ -707,6 +707,28 @@ const (
 	c18D  = "// Package p counts things.\n"
 )
 
+// Long blocks: a generated-code marker may sit behind (or the package clause
+// behind) more text than any fixed-size read-ahead buffer holds.
+var (
+	c18LL = func() string { // about 7 KB of line comments
+		var b strings.Builder
+		b.WriteString("// Copyright (c) 2024 Example Authors.\n//\n")
+		for i := 0; i < 110; i++ {
+			fmt.Fprintf(&b, "// Licence paragraph line %03d: permission is hereby granted, free of charge.\n", i)
+		}
+		return b.String()
+	}()
+	c18XL = func() string { // about 70 KB
+		var b strings.Builder
+		b.WriteString("// Copyright (c) 2024 Example Authors.\n//\n")
+		for i := 0; i < 1100; i++ {
+			fmt.Fprintf(&b, "// Licence paragraph line %04d: permission is hereby granted, free of charge.\n", i)
+		}
+		return b.String()
+	}()
+	c18LLb = "/*\n" + strings.Repeat(" * a long block comment line after the package clause, nothing to see here\n", 90) + " */\n"
+)
+
 type c18Shape struct {
 	Name  string
 	Place string
@@ -755,6 +777,11 @@ func c18Shapes() []c18Shape {
 		pre("Lb__M__P", "detached", func(M string) string { return c18Lb + "\n" + M + "\n" + pkg }),
 		pre("Lb_M_P", "doc", func(M string) string { return c18Lb + M + pkg }),
 		pre("L__M__D__P", "detached", func(M string) string { return c18L + "\n" + M + "\n" + c18D + "\n" + pkg }),
+		pre("LL__M__P", "detached", func(M string) string { return c18LL + "\n" + M + "\n" + pkg }),
+		pre("LL__M_P", "doc", func(M string) string { return c18LL + "\n" + M + pkg }),
+		pre("M__LL__P", "detached", func(M string) string { return M + "\n" + c18LL + "\n" + pkg }),
+		pre("XL__M__D_P", "detached", func(M string) string { return c18XL + "\n" + M + "\n" + c18D + pkg }),
+		pre("M__P_LLb", "detached", func(M string) string { return M + "\n" + "package p " + c18LLb }),
 		{"tabM__P", "detached-indented", func(m []string, style string) (string, bool) {
 			return c18Blk(m, "\t") + "\n" + pkg + c18Tail, true
 		}},
